@@ -72,6 +72,14 @@ def is_autoserialize(v) -> bool:
     return isinstance(m, tuple) and len(m) == 2 and m[0] == "AutoSerialize"
 
 
+def attrs_of(o) -> dict:
+    """attribute name -> value of an AutoSerialize object: the declared fields of an attrs-defined class, vars() otherwise."""
+    fields = getattr(type(o), "__attrs_attrs__", None)
+    if fields is not None:
+        return {fl.name: getattr(o, fl.name) for fl in fields if hasattr(o, fl.name)}
+    return dict(vars(o))
+
+
 def kind_of(v) -> str:
     """Categorical value kind (independent of the random value)."""
     if v is None:
@@ -533,6 +541,6 @@ def walk_kinds(v, depth=0, out=None, maxdepth=12):
         for x in v.values():
             walk_kinds(x, depth + 1, out, maxdepth)
     elif k == "autoserialize":
-        for x in vars(v).values():
+        for x in attrs_of(v).values():
             walk_kinds(x, depth + 1, out, maxdepth)
     return out
